@@ -164,7 +164,7 @@ Definition ops_parse (p : bytes) : option (opsd * bytes) :=
   | t :: h :: a :: r =>
     if memz t sigtypes && memz a pkalgs then
       match skipn 8 r with
-      | f :: r' => Some ({| o_type := t; o_halg := h; o_pkalg := a; o_keyid := firstn 8 r; o_flag := f =? 1 |}, r')
+      | f :: r' => Some ({| o_type := t; o_halg := h; o_pkalg := a; o_keyid := firstn 8 r; o_flag := negb (f =? 0) |}, r')
       | [] => None
       end
     else None
